@@ -98,6 +98,27 @@ func buildV2Job(id string, b *model.Behaviour, pal *palette.Palette, ci int64, h
 }
 
 // runV2Jobs feeds the jobs to the child process and returns its MISMATCH lines per job id.
+// absentRemovalThenPrune: a removal of a key that is not there, later at least two commits, later a prune, later a restart.
+func absentRemovalThenPrune(b *model.Behaviour) bool {
+	stage, saves := 0, 0
+	for _, s := range b.Steps {
+		switch {
+		case stage == 0 && s.Op == "rm" && !s.Ret.Rem:
+			stage = 1
+		case stage == 1 && s.Op == "save" && !s.Ret.Err:
+			saves++
+			if saves >= 2 {
+				stage = 2
+			}
+		case stage == 2 && s.Op == "v2delto":
+			stage = 3
+		case stage == 3 && s.Op == "reopen":
+			return true
+		}
+	}
+	return false
+}
+
 // runV2Jobs spreads the jobs over several child processes.
 func runV2Jobs(jobs []*v2Job) (map[string][]string, int64, error) {
 	const procs = 12
@@ -224,6 +245,25 @@ func RunV2(id, tier string, seed int64) int {
 		transitions += bg
 		behs = append(behs, bb...)
 		sim.K = big.K // palettes must cover the larger key set
+	}
+	if persistence {
+		// focused family: a removal of an absent key, commits up to a checkpoint, a prune beyond it, a restart
+		fam := sim
+		fam.Num = tierNum(tier, 20, 60)
+		fam.Classes = []string{"set", "set", "set", "rmabsent", "rmabsent", "rm", "save", "save", "save", "save", "delto", "delto", "reopen", "reopen"}
+		fb, fg, err := GenerateBehaviours(fam, seed+53)
+		if err != nil {
+			return fail(2, "INCONCLUSIVE: "+err.Error())
+		}
+		transitions += fg
+		kept := 0
+		for _, b := range fb {
+			if kept < tierNum(tier, 12, 100) && absentRemovalThenPrune(b) {
+				behs = append(behs, b)
+				kept++
+			}
+		}
+		ev.Coverage["focused_family"] = fmt.Sprintf("removal of an absent key, two commits, a prune, a restart: %d of %d generated behaviours contain the pattern, %d used", countIf(fb, absentRemovalThenPrune), len(fb), kept)
 	}
 	rng := rand.New(rand.NewSource(seed))
 	var jobs []*v2Job
